@@ -234,7 +234,9 @@ def check_local(ctx):
             ctx.violation(rule, "LocalAnomalyScore|surrounding-value", s.loc(), "the surrounding cost is not the evaluation of a cost", found=repr(val))
             continue
         okey, fitted_on, cutsnf = a.args[1], a.args[2], a.args[3]
-        sub = obj.fields.get("_any_subset_cost")
+        # the object that is refitted per cut: whichever attribute of the adapter holds it (found by the key the evaluation
+        # carries, not by the attribute's private name)
+        sub = next((f_ for f_ in obj.fields.values() if isinstance(f_, ObjV) and f_.key == okey), None)
         owned = isinstance(sub, ObjV) and sub.meta.get("clone_of") is st["cost"] and sub is not st["cost"]
         ctx.check(owned and okey == (sub.key if isinstance(sub, ObjV) else None), "C06.a OWNED-CLONE", "LocalAnomalyScore|refit-object", s.loc(), "the cost refitted on other data is an owned clone, not the user's cost object", found=f"evaluates {okey}", expected="clone(cost)")
         # cut row i
